@@ -216,6 +216,111 @@ func genShape(repo string) (*leanFile, error) {
 	lf.pf("/-- every send of the reader loop into the connection's error queue also watches the connection context -/\n")
 	lf.pf("def readerErrSendsGuarded : Bool := %v\n", rf != nil && bare == 0 && guarded > 0)
 
+	// getValidChannelId: the id is the result of one atomic read-modify-write of the counter
+	gv := p.funcDecl("Conn", "getValidChannelId")
+	atomicRMW, plainRead := false, false
+	if gv != nil {
+		ast.Inspect(gv.Body, func(n ast.Node) bool {
+			switch x := n.(type) {
+			case *ast.AssignStmt:
+				if len(x.Lhs) == 1 && exprStr(x.Lhs[0]) == "curId" && strings.Contains(exprStr(x.Rhs[0]), "atomic.AddUint32(&tds.tdsChannelCurFreeId") {
+					atomicRMW = true
+				}
+			case *ast.SelectorExpr:
+				if exprStr(x) == "tds.tdsChannelCurFreeId" {
+					plainRead = true // refined below: reads inside &… of an atomic call do not count
+				}
+			}
+			return true
+		})
+		// count occurrences: every occurrence must be the operand of `&` in an atomic call
+		occ, atomicOcc := 0, 0
+		ast.Inspect(gv.Body, func(n ast.Node) bool {
+			if se, ok := n.(*ast.SelectorExpr); ok && exprStr(se) == "tds.tdsChannelCurFreeId" {
+				occ++
+			}
+			if ce, ok := n.(*ast.CallExpr); ok && strings.HasPrefix(exprStr(ce.Fun), "atomic.") {
+				for _, a := range ce.Args {
+					if u, ok := a.(*ast.UnaryExpr); ok && u.Op == token.AND && exprStr(u.X) == "tds.tdsChannelCurFreeId" {
+						atomicOcc++
+					}
+				}
+			}
+			return true
+		})
+		plainRead = occ != atomicOcc
+	}
+	lf.pf("/-- a channel id is obtained by ONE atomic fetch-and-add of the id counter (no separate load) -/\n")
+	lf.pf("def idFetchIsAtomicRMW : Bool := %v\n", atomicRMW && !plainRead)
+
+	// every access to the channel map happens between Lock/RLock and Unlock/RUnlock of tdsChannelsLock
+	unlocked := []string{}
+	for _, f := range p.files {
+		for _, d := range f.Decls {
+			fd, ok := d.(*ast.FuncDecl)
+			if !ok || fd.Body == nil {
+				continue
+			}
+			var locks, unlocks, accesses []token.Pos
+			ast.Inspect(fd.Body, func(n ast.Node) bool {
+				switch x := n.(type) {
+				case *ast.CallExpr:
+					fn := exprStr(x.Fun)
+					if strings.HasSuffix(fn, "tdsChannelsLock.Lock") || strings.HasSuffix(fn, "tdsChannelsLock.RLock") {
+						locks = append(locks, x.Pos())
+					}
+					if strings.HasSuffix(fn, "tdsChannelsLock.Unlock") || strings.HasSuffix(fn, "tdsChannelsLock.RUnlock") {
+						unlocks = append(unlocks, x.Pos())
+					}
+				case *ast.SelectorExpr:
+					if x.Sel.Name == "tdsChannels" {
+						accesses = append(accesses, x.Pos())
+					}
+				}
+				return true
+			})
+			for _, a := range accesses {
+				ok := false
+				for i := range locks {
+					if locks[i] < a && i < len(unlocks) && a < unlocks[i] {
+						ok = true
+					}
+				}
+				// the constructor initialises the map before the connection is shared
+				if fd.Name.Name == "NewConn" {
+					ok = true
+				}
+				if !ok {
+					unlocked = append(unlocked, fd.Name.Name)
+				}
+			}
+		}
+	}
+	lf.pf("/-- every access to the id → channel map happens while its lock is held -/\n")
+	lf.pf("def channelMapLocked : Bool := %v\n", len(unlocked) == 0)
+	// header-only packets are delivered as *HeaderOnlyPackage, the type NewChannel asserts
+	hoPtr := false
+	if wp != nil {
+		ast.Inspect(wp.Body, func(n ast.Node) bool {
+			if s, ok := n.(*ast.SendStmt); ok && strings.HasPrefix(exprStr(s.Value), "&HeaderOnlyPackage{") {
+				hoPtr = true
+			}
+			return true
+		})
+	}
+	nc := p.funcDecl("Conn", "NewChannel")
+	asserts := false
+	if nc != nil {
+		ast.Inspect(nc.Body, func(n ast.Node) bool {
+			if ta, ok := n.(*ast.TypeAssertExpr); ok && exprStr(ta.Type) == "*HeaderOnlyPackage" {
+				asserts = true
+			}
+			return true
+		})
+	}
+	lf.pf("/-- the setup acknowledgement is delivered with the dynamic type NewChannel asserts -/\n")
+	lf.pf("def headerOnlyTypeMatches : Bool := %v\n", hoPtr && asserts)
+
 	lf.pf("\nend Dblib.Gen.Shape\n")
 	return lf, nil
 }
